@@ -28,8 +28,9 @@ class N:
 
 
 class P:
-    def __init__(self, name, cst, ty):
+    def __init__(self, name, cst, ty, bounds=None):
         self.name, self.cst, self.ty, self.ln = name, cst, ty, 0
+        self.bounds = bounds or []      # [[name, ln]]: bound names of a range / slice parameter, `var int`s of the function
 
 
 class X:
@@ -126,6 +127,25 @@ class Printer:
     # ---- types
     def pdecl(self, name, t, p=None):
         """param_decl with optional name"""
+        if not isinstance(t, str) and t[0] in ('rng', 'slc'):
+            # name[a .. b, c .. d] : range      name[a .. b] : T      (without bound names: [ .. ] : …)
+            n = t[1]
+            bs = p.bounds if p is not None and p.bounds else None
+            self.w((name or "") + "[")
+            for i in range(n):
+                if i:
+                    self.w(", ")
+                if bs:
+                    bs[2 * i][1] = bs[2 * i + 1][1] = self.line
+                    self.w("%s .. %s" % (bs[2 * i][0], bs[2 * i + 1][0]))
+                else:
+                    self.w("..")
+            self.w("] : ")
+            if t[0] == 'rng':
+                self.w("range")
+            else:
+                self.param(None, t[2], t[3])
+            return
         if isinstance(t, str):
             self.w((name + " : " if name else "") + t)
         elif t[0] in ('rec', 'enum'):
@@ -159,12 +179,12 @@ class Printer:
         else:
             raise ValueError(t)
 
-    def param(self, name, c, t):
+    def param(self, name, c, t, p=None):
         if c == 'c':
             self.w("let ")
         elif c == 'v':
             self.w("var ")
-        self.pdecl(name, t)
+        self.pdecl(name, t, p)
 
     def sx_ty(self, t, ln):
         if isinstance(t, str):
@@ -179,6 +199,10 @@ class Printer:
             return "(arrn %d %s %s)" % (t[1], t[2], self.sx_ty(t[3], ln))
         if t[0] == 'tup':
             return "(tup%s)" % "".join(" (%s %s)" % ('d' if c == 'x' else c, self.sx_ty(x, ln)) for c, x in t[1])
+        if t[0] == 'rng':
+            return "(rng %d)" % t[1]
+        if t[0] == 'slc':
+            return "(slc %d %s %s)" % (t[1], t[2], self.sx_ty(t[3], ln))
         raise ValueError(t)
 
     # ---- expressions; returns the s-expression
@@ -246,6 +270,21 @@ class Printer:
                 self.w(" : ")
                 f = self.expr(e.a[2])
             return "(cond %d %s %s %s)" % (e.ln, c, t, f)
+        if k == 'iflet':
+            # if let (En::it = e) t else f     a = [en, it, e, t, f]; the guard and the expression at the `if` line's successors
+            e.ln = self.line
+            self.w("if let (")
+            gl = self.line
+            self.w("%s::%s = " % (e.a[0], e.a[1]))
+            x = self.expr(e.a[2])
+            self.w(")")
+            self.maybe_nl(0.3)
+            t = self.expr(e.a[3])
+            self.maybe_nl(0.3)
+            self.w("else")
+            self.maybe_nl(0.3)
+            f = self.expr(e.a[4])
+            return "(iflet %d %d %s %s %s %s %s)" % (e.ln, gl, e.a[0], e.a[1], x, t, f)
         if k == 'ass':
             l = self.expr(e.a[0])
             self.maybe_nl(0.15)
@@ -465,8 +504,9 @@ class Printer:
             if i:
                 self.w(", ")
             p.ln = self.line
-            self.param(p.name, p.cst, p.ty)
-            ps.append("(%d %s %s %s)" % (p.ln, p.name, p.cst, self.sx_ty(p.ty, p.ln)))
+            self.param(p.name, p.cst, p.ty, p)
+            ps.append("(%d %s %s %s%s)" % (p.ln, p.name, p.cst, self.sx_ty(p.ty, p.ln),
+                                           (" (%s)" % " ".join("(%d %s)" % (b[1], b[0]) for b in p.bounds)) if p.bounds else ""))
         self.w(") -> ")
         rl = self.line
         self.param(None, f.rc, f.rty)
@@ -591,6 +631,16 @@ class Gen:
         return self.fresh('t' if isinstance(t, tuple) and t[0] == 'tup' else p)
 
     def mkparam(self, p, cw, t):
+        r = self.rng.below(100)
+        if r < 8:
+            # a range parameter `r[a .. b] : range`: the bound names are ints of the function
+            n = self.rng.weighted([(1, 5), (2, 1)])
+            self.stat('param_range')
+            return P(self.fresh('r'), self.rng.weighted(cw), ('rng', n), [[self.fresh('b'), 0] for _ in range(2 * n)])
+        if r < 14:
+            self.stat('param_slice')
+            return P(self.fresh('s'), self.rng.weighted(cw), ('slc', 1, self.rng.weighted([('d', 4), ('v', 1)]), self.rand_fn_safe()),
+                     [[self.fresh('b'), 0] for _ in range(2)])
         return P(self.vname(p, t), self.rng.weighted(cw), t)
 
     # ---- environment
@@ -690,6 +740,7 @@ class Gen:
             opts.append(('block', 1))
             if self.enums:
                 opts.append(('match', 2))
+                opts.append(('iflet', 1))
             if t == 'int':
                 opts.append(('intstmt', 1))
             opts.append(('ass', 1))
@@ -741,6 +792,11 @@ class Gen:
         if t[0] == 'rng':
             self.stat('mk_range')
             return N('range', [self.small_int(d) for _ in range(2 * t[1])], ty=t)
+        if t[0] == 'slc':
+            # a slice of an array literal with these elements
+            self.stat('mk_slice')
+            arr = self.e_make(('arr', t[2], t[3]), d)
+            return N('slice', N('sup', arr, ty=arr.ty), [self.small_int(0) for _ in range(2 * t[1])], ty=t)
         raise ValueError(t)
 
     def small_int(self, d):
@@ -957,6 +1013,12 @@ class Gen:
         self.matches.append((m, en, self.snapshot(), list(self.path)))
         return m
 
+    def e_iflet(self, t, d):
+        en = self.rng.choice(sorted(self.enums))
+        s = self.expr(('enum', en), max(d - 1, 0))
+        self.stat('iflet')
+        return N('iflet', en, self.rng.choice(self.enums[en]), s, self.block(t, d - 1, 'if'), self.block(t, d - 1, 'if'), ty=t)
+
     def e_intstmt(self, t, d):
         """while / for-in loops have type int"""
         if self.rng.chance(0.5):
@@ -1162,7 +1224,13 @@ class Gen:
         if name:
             scope[name] = V(ft, 'temp', 'func')
         for p in ps:
-            scope[p.name] = V(resolved(p.ty), cst_of_p(norm_c(p.cst)), 'param')
+            pt = resolved(p.ty)
+            if isinstance(pt, tuple) and pt[0] == 'slc':
+                pt = ('slc', pt[1], norm_c(p.ty[2]), pt[3])     # param_check_type: the element type of a slice PARAMETER defaults to const
+            scope[p.name] = V(pt, cst_of_p(norm_c(p.cst)), 'param')
+            for b in p.bounds:
+                # C: param_new_range_dim makes the bound names VAR whatever the parameter is (known finding: assignable)
+                scope[b[0]] = V('int', 'var', 'param')
         f = F(name, ps, rc, rty, None)
         self.curfn = f
         self.path.append(label)
@@ -1268,6 +1336,11 @@ def incompatible_arg_types(pt, gen):
         for t in ('int', 'string', 'bool'):
             if not ty_eq(t, pt[2]):
                 out.append((('arr', 'd', t), 'silent'))
+    elif pt[0] == 'rng':
+        out += [('int', 'kind'), (('arr', 'd', 'int'), 'kind'), (('rng', 3 - pt[1]), 'silent')]
+    elif pt[0] == 'slc':
+        other = 'string' if not ty_eq(pt[3], 'string') else 'int'
+        out += [('int', 'kind'), (('arr', pt[2], pt[3]), 'kind'), (('slc', pt[1], pt[2], other), 'silent')]
     elif pt[0] == 'tup':
         out += [('int', 'kind'), ('string', 'kind')]
         ms = pt[1]
@@ -1297,7 +1370,9 @@ RULES = ['assign_let', 'assign_param', 'call_arity', 'call_kind', 'undef_name', 
          'cond_nonbool', 'ret_kind', 'match_missing', 'unknown_exc',
          # D11
          'branch_tuple', 'branch_range', 'branch_elem', 'tuple_arity', 'tuple_index', 'array_ragged', 'forin_iter_assign',
-         'pipe_arity', 'pipe_tuple_arity', 'match_after_else', 'elem_long_double']
+         'pipe_arity', 'pipe_tuple_arity', 'match_after_else', 'elem_long_double',
+         # round 2
+         'empty_unit', 'func_noname']
 
 
 class Mutator:
@@ -1664,8 +1739,11 @@ class Mutator:
 
     def _branches(self, a, b, t, rule, site, note):
         g, rng = self.g, self.rng
-        r = rng.below(3)
-        if r == 2 and g.enums:
+        r = rng.below(4)
+        if r == 3 and g.enums:
+            en = rng.choice(sorted(g.enums))
+            bad = N('iflet', en, rng.choice(g.enums[en]), g.expr(('enum', en), 0), N('seq', [a], ty=t), N('seq', [b], ty=t), ty=t)
+        elif r >= 2 and g.enums:
             # arms of a match
             en = rng.choice(sorted(g.enums))
             items = list(g.enums[en])
@@ -1916,6 +1994,26 @@ class Mutator:
         site.seq.a[0].insert(site.idx, f)
         return Mutant('elem_long_double', self.p, bad, 'callMismatch', site.path, "%s as %s, form %d" % (b, a, form))
 
+    def empty_unit(self):
+        """every function deleted: a main unit of declarations only (bad4904)"""
+        if not self.p.decls:
+            return None
+        del self.p.funcs[:]
+        marker = N('sub', [])
+        marker.ln = 1
+        return Mutant('empty_unit', self.p, marker, 'emptyMainUnit', ['top'], "%d declarations left" % len(self.p.decls))
+
+    def func_noname(self):
+        """a function ITEM (top level or in a block) loses its name (0b116cb)"""
+        fs = [(f, path) for f, path in self.g.funcs if f.name]
+        if not fs:
+            return None
+        top = [(f, path) for f, path in fs if any(f is t for t in self.p.funcs)]
+        f, path = self.rng.choice(top) if top and self.rng.chance(0.4) else self.rng.choice(fs)
+        note = f.name
+        f.name = None
+        return Mutant('func_noname', self.p, f, 'funcNoName', path[:-1] or ['top'], note)
+
     # -- known acceptances of the tree (corpus/tc_known), as mutators: KNOWN-FINDING while accepted
     def slice_assign_let(self):
         """an element of a `let` array assigned through a slice of it"""
@@ -1987,7 +2085,7 @@ class Mutator:
 # (branch kinds, array elements, indices, qualifiers, redefinitions, constness of bindings, …).
 
 EXPR_KINDS = {'b', 'i', 'l', 'f', 'd', 'c', 's', 'id', 'ev', 'un', 'bin', 'sup', 'cond', 'ass', 'while', 'forin', 'call',
-              'fun', 'seq', 'attr', 'match', 'arr', 'deref', 'lc', 'tuple', 'proj', 'range', 'slice', 'pipe'}
+              'fun', 'seq', 'attr', 'match', 'arr', 'deref', 'lc', 'tuple', 'proj', 'range', 'slice', 'pipe', 'iflet'}
 
 
 def expr_slots(prog):
